@@ -16,7 +16,7 @@ out = ["<!-- SEEDED-TABLE-BEGIN -->", "| seeded change | property | needs to man
 for n, p, needs, by in rows:
     out.append("| %s | %s | %s | %s%s |" % (n, p, needs.replace("|", "/")[:260], by, (" - " + NOTES[n]) if n in NOTES else ""))
 missed = [n for n, *_ in rows if n in NOTES]
-out += ["", "%d seeded changes, eight per property, from eight rounds of independent sub-agents (each later round was told the earlier rounds' ideas"
+out += ["", "%d seeded changes, nine per property, from nine rounds of independent sub-agents (each later round was told the earlier rounds' ideas"
         % len(rows), "and asked for a different mechanism). %d of them were missed - or caught only for an incidental reason - by the version of the check that" % len(missed),
         "existed when they arrived; in every case the oracle was adequate and the *workload* did not reach the triggering input class, so the",
         "generator was widened (never the oracle loosened), the unchanged tree was re-swept over several seeds, and the change is now caught",
